@@ -30,3 +30,195 @@ def _check(g: 'Graph', model: 'Model') -> 'int':
     invariant(1, lambda: forall_idx(dict_keys(errors), lambda j, k: j >= _i0 or len(dict_get(errors, k)) == 0
                                     or dict_has(g.metadata, 'error-' + str_of(j + 1))))
     invariant(1, lambda: g.triples == old(g).triples and g._top == old(g)._top)
+
+
+# ---- the per-graph pipeline (C20) -----------------------------------------------------------------
+# view='stages': every library stage is an opaque function of its arguments (named by an
+# uninterpreted function); what is proved is that _process_in/_process_out apply exactly the
+# documented stages, in the documented order, each with the selected model and options.
+
+@spec(uninterpreted=True)
+def st_canonicalize(t: 'val', model: 'Model') -> 'val':
+    """transform.canonicalize_roles"""
+
+
+@spec(uninterpreted=True)
+def st_interpret(t: 'val', model: 'Model') -> 'val':
+    """layout.interpret"""
+
+
+@spec(uninterpreted=True)
+def st_reify_edges(g: 'val', model: 'Model') -> 'val':
+    """transform.reify_edges"""
+
+
+@spec(uninterpreted=True)
+def st_dereify_edges(g: 'val', model: 'Model') -> 'val':
+    """transform.dereify_edges"""
+
+
+@spec(uninterpreted=True)
+def st_reify_attributes(g: 'val') -> 'val':
+    """transform.reify_attributes"""
+
+
+@spec(uninterpreted=True)
+def st_indicate_branches(g: 'val', model: 'Model') -> 'val':
+    """transform.indicate_branches"""
+
+
+@spec(uninterpreted=True)
+def st_configure(g: 'val', top: 'val', model: 'Model') -> 'val':
+    """layout.configure"""
+
+
+@spec(uninterpreted=True)
+def st_reconfigure(g: 'val', model: 'Model', key: 'val', kwargs: 'val') -> 'val':
+    """layout.reconfigure (the top, if any, travels inside the keyword arguments)"""
+
+
+@spec(uninterpreted=True)
+def st_rearrange(t: 'val', key: 'val', kwargs: 'val') -> 'val':
+    """layout.rearrange (the tree afterwards)"""
+
+
+@spec(uninterpreted=True)
+def st_reset_variables(t: 'val', fmt: 'val') -> 'val':
+    """Tree.reset_variables (the tree afterwards)"""
+
+
+@contract('penman.transform:canonicalize_roles@stages')
+def canonicalize_roles_st(t: 'obj', model: 'Model') -> 'obj':
+    option(axiom=True)
+    ensures(result.state == st_canonicalize(t.state, model))
+
+
+@contract('penman.layout:interpret@stages')
+def interpret_st(t: 'obj', model: 'Model') -> 'obj':
+    option(axiom=True)
+    ensures(result.state == st_interpret(t.state, model))
+
+
+@contract('penman.transform:reify_edges@stages')
+def reify_edges_st(g: 'obj', model: 'Model') -> 'obj':
+    option(axiom=True)
+    ensures(result.state == st_reify_edges(g.state, model))
+
+
+@contract('penman.transform:dereify_edges@stages')
+def dereify_edges_st(g: 'obj', model: 'Model') -> 'obj':
+    option(axiom=True)
+    ensures(result.state == st_dereify_edges(g.state, model))
+
+
+@contract('penman.transform:reify_attributes@stages')
+def reify_attributes_st(g: 'obj') -> 'obj':
+    option(axiom=True)
+    ensures(result.state == st_reify_attributes(g.state))
+
+
+@contract('penman.transform:indicate_branches@stages')
+def indicate_branches_st(g: 'obj', model: 'Model') -> 'obj':
+    option(axiom=True)
+    ensures(result.state == st_indicate_branches(g.state, model))
+
+
+@contract('penman.layout:configure@stages')
+def configure_st(g: 'obj', top: 'val', model: 'Model') -> 'obj':
+    option(axiom=True)
+    ensures(result.state == st_configure(g.state, top, model))
+
+
+@contract('penman.layout:reconfigure@stages')
+def reconfigure_st(g: 'obj', top: 'val', model: 'Model', key: 'val', __kwargs__: 'val') -> 'obj':
+    option(axiom=True)
+    ensures(result.state == st_reconfigure(g.state, model, key, __kwargs__))
+
+
+@contract('penman.layout:rearrange@stages')
+def rearrange_st(t: 'obj', key: 'val', attributes_first: 'val', __kwargs__: 'val') -> 'none':
+    option(axiom=True)
+    modifies(t)
+    ensures(t.state == st_rearrange(old(t).state, key, __kwargs__))
+
+
+@contract('penman.tree:Tree.reset_variables@stages')
+def reset_variables_st(self: 'obj', fmt: 'val') -> 'none':
+    option(axiom=True)
+    modifies(self)
+    ensures(self.state == st_reset_variables(old(self).state, fmt))
+
+
+@spec
+def on(options: 'dict', name: 'str') -> 'bool':
+    """the option is set (truthy)"""
+    return dict_has(options, name) and truthy(dict_get(options, name))
+
+
+@contract('penman.__main__:_process_in', view='stages')
+def _process_in(t: 'obj', model: 'Model', normalize_options: 'dict') -> 'obj':
+    requires(dict_has(normalize_options, 'canonicalize_roles') and dict_has(normalize_options, 'reify_edges')
+             and dict_has(normalize_options, 'dereify_edges') and dict_has(normalize_options, 'reify_attributes')
+             and dict_has(normalize_options, 'indicate_branches'))
+    # canonicalise, interpret, reify, dereify, reify attributes, indicate branches -- in this order,
+    # each stage only when its option is set, every model-dependent stage with the selected model
+    ensures(result.state == pipeline_in(t.state, model, normalize_options))
+
+
+@spec
+def pipeline_in(t: 'val', model: 'Model', o: 'dict') -> 'val':
+    return stage_ib(stage_ra(stage_de(stage_re(st_interpret(stage_cr(t, model, o), model), model, o), model, o), o), model, o)
+
+
+@spec
+def stage_cr(t: 'val', model: 'Model', o: 'dict') -> 'val':
+    return st_canonicalize(t, model) if on(o, 'canonicalize_roles') else t
+
+
+@spec
+def stage_re(g: 'val', model: 'Model', o: 'dict') -> 'val':
+    return st_reify_edges(g, model) if on(o, 'reify_edges') else g
+
+
+@spec
+def stage_de(g: 'val', model: 'Model', o: 'dict') -> 'val':
+    return st_dereify_edges(g, model) if on(o, 'dereify_edges') else g
+
+
+@spec
+def stage_ra(g: 'val', o: 'dict') -> 'val':
+    return st_reify_attributes(g) if on(o, 'reify_attributes') else g
+
+
+@spec
+def stage_ib(g: 'val', model: 'Model', o: 'dict') -> 'val':
+    return st_indicate_branches(g, model) if on(o, 'indicate_branches') else g
+
+
+@contract('penman.__main__:_process_out', view='stages')
+def _process_out(g: 'obj', model: 'Model', normalize_options: 'dict') -> 'obj':
+    requires(dict_has(normalize_options, 'reconfigure') and dict_has(normalize_options, 'rearrange')
+             and dict_has(normalize_options, 'make_variables'))
+    requires(implies(on(normalize_options, 'reconfigure'),
+                     is_tuple(dict_get(normalize_options, 'reconfigure')) and len(dict_get(normalize_options, 'reconfigure')) == 2))
+    requires(implies(on(normalize_options, 'rearrange'),
+                     is_tuple(dict_get(normalize_options, 'rearrange')) and len(dict_get(normalize_options, 'rearrange')) == 2))
+    # reconfigure WITH THE MODEL (else configure with the model), then rearrange, then relabel
+    ensures(result.state == stage_mv(stage_rr(stage_cf(g.state, model, normalize_options), normalize_options), normalize_options))
+
+
+@spec
+def stage_cf(g: 'val', model: 'Model', o: 'dict') -> 'val':
+    if on(o, 'reconfigure'):
+        return st_reconfigure(g, model, dict_get(o, 'reconfigure')[0], dict_get(o, 'reconfigure')[1])
+    return st_configure(g, None, model)
+
+
+@spec
+def stage_rr(t: 'val', o: 'dict') -> 'val':
+    return st_rearrange(t, dict_get(o, 'rearrange')[0], dict_get(o, 'rearrange')[1]) if on(o, 'rearrange') else t
+
+
+@spec
+def stage_mv(t: 'val', o: 'dict') -> 'val':
+    return st_reset_variables(t, dict_get(o, 'make_variables')) if on(o, 'make_variables') else t
